@@ -14,7 +14,7 @@ from pyutil import rel
 from consteval import Ev, Unknown, Raised
 import exprnf as X
 from exprnf import C, V
-from cfront import TU, kids, kind, strip, walk, ctext, array_extent, calls_to, call_args
+from cfront import TU, kids, kind, strip, walk, ctext, array_extent, calls_to, call_args, fold_env, wrap_int
 from rules import c19 as G
 
 EXPLANATION = (
@@ -27,7 +27,8 @@ EXPLANATION = (
     "transcription (spec/hopping.json); the 2^NBIN mask -- identified by role as what the formula applies with `&` -- is a pure "
     "function of N and is constant-folded for every N of the finite domain 1..64 (Python: the constructor's own statements "
     "through the whitelisted folder, C: the forward-substituted helper term) and compared with (1 << bits(N)) - 1, however "
-    "it is written (the OR-of-shifts reading is recorded as evidence only); the time decomposition is "
+    "it is written, loops included (the OR-of-shifts reading is recorded as evidence only); a single conditional subtraction "
+    "is accepted as `mod N` only with an interval proof operand <= 2N - 1 for every N; the time decomposition (T1 mod 64, T2, T3) is "
     "compared with TS 45.002 4.3.3 on both sides, the table index is bounded by intervals (HSN range established by the "
     "constructor's guard) and the frequency getters must pass their own frame number to resolve(). All inputs are covered "
     "because formulas, tables and guards are compared, not values.")
@@ -145,23 +146,26 @@ def to_spec_symbols(t, ren):
     return G.renorm(t, leaf, band_pnm), masks
 
 
-def eval_term(t, env):
+def eval_term(t, env, call=None):
     """value of a closed integer term (constant folding of the normal form);
     None when a leaf is unbound, an operator is outside plain non-negative
-    int arithmetic (where C and mathematics agree) or a value leaves it"""
+    int arithmetic (where C and mathematics agree) or a value leaves it.
+    `call(name, [values])` folds an opaque value-only helper."""
     k = t[0]
     if k == "c":
         return t[1]
     if k == "v":
         return env.get(t)
     if k == "ite":
-        c = eval_term(t[1], env)
-        return None if c is None else eval_term(t[2] if c else t[3], env)
-    a = [eval_term(x, env) for x in t[1:] if isinstance(x, tuple)]
+        c = eval_term(t[1], env, call)
+        return None if c is None else eval_term(t[2] if c else t[3], env, call)
+    a = [eval_term(x, env, call) for x in t[1:] if isinstance(x, tuple)]
     if any(x is None for x in a):
         return None
     v = None
-    if k == "+":
+    if k == "call" and call is not None:
+        v = call(t[1], a)
+    elif k == "+":
         v = sum(a)
     elif k == "*":
         v = 1
@@ -188,6 +192,179 @@ def eval_term(t, env):
     if v is None or not (-(1 << 31) <= v < (1 << 31)):
         return None
     return v
+
+
+class _Flow(Exception):
+    def __init__(self, what, value=None):
+        Exception.__init__(self, what)
+        self.what, self.value = what, value
+
+
+class CFold:
+    """Constant folder for a value-only C helper (integer parameters, own
+    locals only, no memory, no calls out of the TU): the checker's own
+    evaluator over the clang AST, used to fold the 2^NBIN mask helper for
+    each N of the finite domain when it is written with a loop.  Built on
+    cfront.fold_env for side-effect-free expressions."""
+    LIMIT = 20000
+
+    def __init__(self, tu, sym):
+        self.tu, self.sym = tu, sym
+        self.steps = 0
+
+    def call(self, name, args):
+        f = self.tu.functions.get(name)
+        if f is None or not any(kind(c) == "CompoundStmt" for c in kids(f)) or not self.sym.value_only(f):
+            return None
+        ps = self.tu.fparams(f)
+        if len(ps) != len(args):
+            return None
+        env = {p.get("name"): wrap_int(a, p.get("type", {}).get("qualType", "")) for p, a in zip(ps, args)}
+        try:
+            self.stmt(self.tu.body(f), env)
+        except _Flow as e:
+            return e.value if e.what == "return" else None
+        return None
+
+    @staticmethod
+    def _effect(n):
+        return any(kind(x) in ("CompoundAssignOperator", "CallExpr") or
+                   (kind(x) == "BinaryOperator" and x.get("opcode") in ("=", ",")) or
+                   (kind(x) == "UnaryOperator" and x.get("opcode") in ("++", "--")) for x in walk(n))
+
+    def _store(self, lhs, v, env):
+        t = strip(lhs)
+        if kind(t) != "DeclRefExpr" or v is None:
+            raise _Flow("unknown")
+        env[ctext(t)] = wrap_int(v, t.get("type", {}).get("qualType", ""))
+        return env[ctext(t)]
+
+    def expr(self, n, env):
+        m = strip(n)
+        if not self._effect(m):
+            return fold_env(self.tu, m, env)
+        k, ks = kind(m), kids(m)
+        if k == "BinaryOperator" and m.get("opcode") == "=":
+            return self._store(ks[0], self.expr(ks[1], env), env)
+        if k == "BinaryOperator" and m.get("opcode") == ",":
+            self.expr(ks[0], env)
+            return self.expr(ks[1], env)
+        if k == "CompoundAssignOperator":
+            a, b = self.expr(ks[0], env), self.expr(ks[1], env)
+            if a is None or b is None:
+                raise _Flow("unknown")
+            op = m.get("opcode")[:-1]
+            try:
+                v = {"+": a + b, "-": a - b, "*": a * b, "&": a & b, "|": a | b, "^": a ^ b,
+                     "<<": a << b if 0 <= b < 64 else None, ">>": a >> b if 0 <= b < 64 else None,
+                     "/": int(a / b) if b else None, "%": (a - b * int(a / b)) if b else None}.get(op)
+            except (ValueError, OverflowError):
+                v = None
+            return self._store(ks[0], v, env)
+        if k == "UnaryOperator" and m.get("opcode") in ("++", "--"):
+            a = self.expr(ks[0], env)
+            if a is None:
+                raise _Flow("unknown")
+            v = self._store(ks[0], a + (1 if m.get("opcode") == "++" else -1), env)
+            return a if m.get("isPostfix") else v
+        if k == "CallExpr":
+            args = [self.expr(a, env) for a in ks[1:]]
+            return None if any(a is None for a in args) else self.call(ctext(ks[0]), args)
+        if k == "BinaryOperator" and m.get("opcode") in ("&&", "||"):
+            a = self.expr(ks[0], env)
+            if a is None:
+                return None
+            if bool(a) == (m.get("opcode") == "||"):
+                return int(bool(a))
+            b = self.expr(ks[1], env)
+            return None if b is None else int(bool(b))
+        if k == "ConditionalOperator":
+            c = self.expr(ks[0], env)
+            return None if c is None else self.expr(ks[1] if c else ks[2], env)
+        # operator over operands with effects: evaluate the operands in order, then fold the operator
+        vals = {}
+        for c in ks:
+            if self._effect(c):
+                v = self.expr(c, env)
+                if v is None:
+                    return None
+                vals[ctext(c)] = v
+        env2 = dict(env)
+        env2.update(vals)
+        return fold_env(self.tu, m, env2)
+
+    def _tick(self):
+        self.steps += 1
+        if self.steps > self.LIMIT:
+            raise _Flow("unknown")
+
+    def stmt(self, st, env):
+        if not st:
+            return
+        k = kind(st)
+        ks = kids(st)
+        if k == "CompoundStmt":
+            for c in ks:
+                self.stmt(c, env)
+        elif k == "NullStmt":
+            pass
+        elif k == "DeclStmt":
+            for d in ks:
+                if kind(d) == "VarDecl":
+                    if d.get("init") and kids(d):
+                        v = self.expr(kids(d)[-1], env)
+                        env[d.get("name")] = None if v is None else wrap_int(v, d.get("type", {}).get("qualType", ""))
+                    else:
+                        env.pop(d.get("name"), None)
+        elif k == "ReturnStmt":
+            raise _Flow("return", self.expr(ks[0], env) if ks else None)
+        elif k == "BreakStmt":
+            raise _Flow("break")
+        elif k == "ContinueStmt":
+            raise _Flow("continue")
+        elif k == "IfStmt":
+            inner = list(st.get("inner", []))
+            has_else = st.get("hasElse", False)
+            if len(inner) != (3 if has_else else 2):
+                raise _Flow("unknown")
+            c = self.expr(inner[0], env)
+            if c is None:
+                raise _Flow("unknown")
+            if c:
+                self.stmt(inner[1], env)
+            elif has_else:
+                self.stmt(inner[2], env)
+        elif k in ("ForStmt", "WhileStmt", "DoStmt"):
+            if k == "ForStmt":
+                init, cond, inc, body = st["inner"][0], st["inner"][2], st["inner"][3], st["inner"][4]
+            elif k == "WhileStmt":
+                init, cond, inc, body = None, st["inner"][-2], None, st["inner"][-1]
+            else:
+                init, cond, inc, body = None, st["inner"][1], None, st["inner"][0]
+            if init:
+                self.stmt(init, env) if kind(init) == "DeclStmt" else self.expr(init, env)
+            first = True
+            while True:
+                self._tick()
+                if not (k == "DoStmt" and first) and cond:
+                    c = self.expr(cond, env)
+                    if c is None:
+                        raise _Flow("unknown")
+                    if not c:
+                        break
+                first = False
+                try:
+                    self.stmt(body, env)
+                except _Flow as e:
+                    if e.what == "break":
+                        break
+                    if e.what != "continue":
+                        raise
+                if inc:
+                    self.expr(inc, env)
+        else:
+            if self.expr(st, env) is None and not self._effect(st):
+                raise _Flow("unknown")
 
 
 def nbin_mask(n):
@@ -266,7 +443,9 @@ class PySide:
         """constructor: one non-raising path; its stores and its path conditions"""
         fd = self.init
         ps = [a.arg for a in fd.args.args][1:]
-        sym = G.PySym(self.repo, self.mod, self.ci)
+        # loops are admitted in the constructor only: what they assign (the mask) is an opaque symbol for the
+        # term builder and is decided by folding the constructor for every N (R2)
+        sym = G.PySym(self.repo, self.mod, self.ci, loops="havoc")
         out = sym.run(fd)
         falls = [(c, o) for c, o in G.leaves(out) if o[0] in ("fall", "ret")]
         if len(falls) != 1 or falls[0][1][0] != "fall":
@@ -294,7 +473,7 @@ class PySide:
                     if k == "load":
                         continue
                     q = qualname(node)
-                    ok = m.name == "gsm_shared" and q == "HoppingParams.__init__" and k == "store"
+                    ok = m.name == "gsm_shared" and q == "HoppingParams.__init__" and k in ("store", "aug")
                     self.L.ob("C07.R3", m.rel, q, "writer of hopping parameter `%s` (%s)" % (attr, k),
                               "only HoppingParams.__init__ stores the hopping parameters and the mask",
                               "%s in %s" % (k, q), ok, node.lineno)
@@ -362,10 +541,11 @@ class CSide:
             raise AnalysisError("%s(): expected (t, hsn, maio, n, arfcn_tbl), found %r" % (self.HOP, ps))
         self.params = ps
         t, hsn, maio, n, tbl = ps
-        sym = G.CSym(tu)
+        self.sym = sym = G.CSym(tu)
         self.raw = sym.result(sym.run(f))
         if sym.effects:
             raise AnalysisError("%s(): calls %s(); unclassifiable" % (self.HOP, sym.effects[0][1]))
+        self.fold = CFold(tu, sym)
         tabs = sorted({x[1][1] for x in G.subterms(self.raw) if x[0] == "idx" and x[1][0] == "v" and x[1][1] in tu.vars
                        and x[1][1] not in ps and array_extent(tu.vars[x[1][1]].get("type", {}).get("qualType")) is not None})
         if len(tabs) != 1:
@@ -491,7 +671,11 @@ def r2_mask(L, repo, py, cs):
             L.ob("C07.R2", file, func, "the mask (%s) is a function of N only" % what, [], deps, not deps, line)
             vals = []
             for n in DOMAIN_N:
-                v = eval_term(mterm, {N: n, HSN: 1, MAIO: 0})
+                call = None
+                if file == F_RFCH:
+                    cs.fold.steps = 0
+                    call = cs.fold.call
+                v = eval_term(mterm, {N: n, HSN: 1, MAIO: 0}, call)
                 if v is None:
                     raise AnalysisError("%s: the 2^NBIN mask `%s` cannot be folded for N = %d; unclassifiable" % (
                         func, G.show(mterm)[:120], n))
@@ -504,13 +688,45 @@ def r2_mask(L, repo, py, cs):
     L.floor("C07.R2", "2^NBIN masks (Python + C)", nmasks, 2)
 
 
-def r3_formula(L, py, cs):
+def settle_reductions(L, file, func, term, line, rntable, names):
+    """`x = S; if (x >= N) x -= N` (one conditional subtraction) is S mod N
+    exactly when S <= 2N - 1.  Decided with the interval of S for every N of
+    the domain (2^NBIN fixed by N; HSN, MAIO in 0..63; T1..T3 in their
+    ranges).  Proven -> rewritten to mod silently; not within 2N - 1 -> the
+    reduction is reported (R3) and the comparison continues with mod."""
+    def leaf(x):
+        if x[0] != "red":
+            return None
+        S, m = G.renorm(x[1], leaf, band_pnm), G.renorm(x[2], leaf, band_pnm)
+        if m != N:
+            return ("red", S, m)
+        bad = []
+        for n in DOMAIN_N:
+            rng = {N: (n, n), P: (nbin_mask(n) + 1,) * 2, HSN: (0, 63), MAIO: (0, 63), FN: (0, G.HYPERFRAME - 1),
+                   V("T1"): (0, 2047), V("T2"): (0, 25), V("T3"): (0, 50)}
+            iv = G.interval(S, rng, {RN: rntable})
+            if not (iv[0] >= 0 and iv[1] <= 2 * n - 1):
+                bad.append((n, iv))
+        L.ob("C07.R3", file, func,
+             "hopping formula of %s: the single conditional subtraction `x = %s; if x >= N: x -= N` is a reduction modulo N "
+             "only for operands <= 2N - 1" % (func, G.show(S, names)[:150]),
+             "operand <= 2N - 1 for every N in 1..64 (HSN, MAIO in 0..63)",
+             "holds for all 64 values of N" if not bad else "operand can exceed 2N - 1 for %d of 64 values of N: %s" % (
+                 len(bad), ", ".join("N = %d: operand in %s, 2N - 1 = %d" % (n, G.ivtxt(iv), 2 * n - 1) for n, iv in bad[:3])),
+             not bad, line)
+        return X.mod(S, m)
+    return G.renorm(term, leaf, band_pnm)
+
+
+def r3_formula(L, py, cs, rntable):
     # Python
     sp = spec_terms(FN, *[G.spec_decomposition(FN)[k] for k in ("t1", "t2", "t3")])
+    sc = spec_terms(FN, V("T1"), V("T2"), V("T3"))
+    py.term = settle_reductions(L, F_GSM, "HoppingParams.resolve", py.term, py.resolve.lineno, rntable, sp["names"])
+    cs.term = settle_reductions(L, F_RFCH, cs.HOP, cs.term, cs.tu.line(cs.f), rntable, sc["names"])
     check_vocabulary(py.term, "HoppingParams.resolve")
     compare_formula(L, F_GSM, "HoppingParams.resolve", py.term, ("idx", MA, sp["mai"]), sp["names"], py.resolve.lineno, "py")
     # C
-    sc = spec_terms(FN, V("T1"), V("T2"), V("T3"))
     check_vocabulary(cs.term, cs.HOP)
     want = G.ite_(X.cmp_("==", MA, C(0)), sc["mai"], ("idx", MA, sc["mai"]))
     found = cs.term
@@ -541,7 +757,7 @@ def t1_uses(I, T1):
 
 
 def r4_time(L, repo, py, cs, sp, sc):
-    G.r1_decomposition(L, repo, rule="C07.R4")
+    G.r1_decomposition(L, repo, rule="C07.R4", hopping_only=True)
     for (file, func, term, T1, line) in ((F_GSM, "HoppingParams.resolve", py.term, G.spec_decomposition(FN)["t1"], py.resolve.lineno),
                                          (F_RFCH, cs.HOP, cs.term, V("T1"), cs.tu.line(cs.f))):
         idxs = []
@@ -646,7 +862,7 @@ def run(L, tier):
     ptab, ctab, cext = r1_tables(L, repo, py, cs, spec)
     r2_mask(L, repo, py, cs)
     try:
-        sp, sc = r3_formula(L, py, cs)
+        sp, sc = r3_formula(L, py, cs, spec["RNTABLE"])
     except AnalysisError as e:
         # a recognised violation elsewhere (table, mask) takes precedence over "cannot tell" here
         if any(not o.ok for o in L.obs):
